@@ -377,20 +377,50 @@ def St.removeObj (s : St) (a : Addr) : St :=
 
 def St.targetEnts (s : St) (ps : List Path) : List Ent := ps.filterMap s.findEnt
 
-/-- `cmd_remove --from-cache`. -/
-def St.remove (s : St) (ps : List Path) (allVersions force : Bool) : St × Out :=
-  let ts := s.targetEnts ps
-  let candidates : List Addr := ts.flatMap (fun e =>
-    if allVersions then s.versionsOf e
-    else match s.recs e with
+/-- which versions of the targets `xvc file remove` is about: the current one (default), all
+    (`--all-versions`) or the one whose digest starts with the given prefix (`--only-version`; digests are
+    perfect hashes in the model, so a prefix designates one digest) -/
+inductive RemoveSel where
+  | current
+  | all
+  | only (d : Digest)
+  deriving DecidableEq, Repr
+
+/-- `candidate_paths` of `cmd_remove`, one entry per (target entity, version) pair -/
+def St.removeCandidates (s : St) (ts : List Ent) (sel : RemoveSel) : List Addr :=
+  ts.flatMap (fun e =>
+    match sel with
+    | .all => s.versionsOf e
+    | .current =>
+      match s.recs e with
       | some r => (r.cur.map (addrOf r.path)).toList
-      | none => [])
-  let deletable := candidates.filter (fun a => force || (s.otherReferrers ts a).isEmpty)
-  (deletable.foldl St.removeObj s, .ok)
+      | none => []
+    | .only d => (s.versionsOf e).filter (fun a => a.d = d))
+
+def RemoveSel.isOnly : RemoveSel → Bool
+  | .only _ => true
+  | _ => false
+
+/-- `deletable_paths` of `cmd_remove`: the candidates no entity outside the targets refers to (all of
+    them with `--force`).  `none`: "Version prefix is not unique" — more than one (entity, version) pair
+    matches `--only-version` — the command fails before doing anything. -/
+def St.removeDeletable (s : St) (ps : List Path) (sel : RemoveSel) (force : Bool) : Option (List Addr) :=
+  let ts := s.targetEnts ps
+  let cands := s.removeCandidates ts sel
+  if sel.isOnly && decide (1 < cands.length) then none
+  else some (cands.filter (fun a => force || (s.otherReferrers ts a).isEmpty))
+
+/-- `cmd_remove --from-cache`. -/
+def St.remove (s : St) (ps : List Path) (sel : RemoveSel) (force : Bool) : St × Out :=
+  match s.removeDeletable ps sel force with
+  | none => (s, .refused)
+  | some l => (l.foldl St.removeObj s, .ok)
 
 /-- `untrack`, first phase: re-materialise as copies the entries that are links into the cache:
     symlinks, and files recorded as hard links that still are the cache object's inode
-    (`is_same_file`; a file the user put in its place is left alone) -/
+    (`is_same_file`; a file the user put in its place is left alone); a target that is missing from the
+    workspace is restored from the cache as well (`all_content_digests[xe]` panics when nothing was
+    ever committed for it) -/
 def St.rematerialise (s : St) (ts : List Ent) : St × Out :=
   forEach (fun (s : St) (e : Ent) =>
     match s.recs e with
@@ -400,6 +430,8 @@ def St.rematerialise (s : St) (ts : List Ent) : St × Out :=
       | some (.file _ _ _ (some a)), some d =>
         if r.method = .hardlink ∧ a = addrOf r.path d then s.recheckFromCache r.path (addrOf r.path d) .copy
         else (s, .ok)
+      | none, some d => s.recheckFromCache r.path (addrOf r.path d) .copy
+      | none, none => (s, .panic)
       | _, _ => (s, .ok)
     | none => (s, .ok)) s ts
 
@@ -413,12 +445,9 @@ def St.untrackDeletable (s : St) (ts : List Ent) : List Addr :=
 /-- `cmd_untrack`. -/
 def St.untrack (s : St) (ps : List Path) : St × Out :=
   let ts := s.targetEnts ps
-  -- every target must be present in the workspace: `symlink_metadata().unwrap()`
-  if ts.any (fun e => match s.recs e with | some r => (s.ws r.path).isNone | none => false) then (s, .panic)
-  else
-    match s.rematerialise ts with
-    | (s1, .panic) => (s1, .panic)
-    | (s1, _) => ((s.untrackDeletable ts).foldl St.removeObj (s1.dropRecs ts), .ok)
+  match s.rematerialise ts with
+  | (s1, .panic) => (s1, .panic)
+  | (s1, _) => ((s.untrackDeletable ts).foldl St.removeObj (s1.dropRecs ts), .ok)
 
 /-- what `untrack --restore-versions DIR` copies out: one file per target path and recorded version,
     `DIR/<parent of the path>/<stem>-<address prefix>.<ext>` -/
@@ -447,14 +476,12 @@ def St.restoreCopies (s : St) (blocked : List (Path × Addr)) : List (Path × Ad
 def St.untrackRestore (s : St) (ps : List Path) (blocked : List (Path × Addr)) :
     (St × Out) × List (Path × Addr × Bytes) :=
   let ts := s.targetEnts ps
-  if ts.any (fun e => match s.recs e with | some r => (s.ws r.path).isNone | none => false) then ((s, .panic), [])
-  else
-    match s.rematerialise ts with
-    | (s1, .panic) => ((s1, .panic), [])
-    | (s1, _) =>
-      match s1.restoreCopies blocked (s.restoreItems ts) with
-      | (w, false) => ((s1, .panic), w)
-      | (w, true) => (((s.untrackDeletable ts).foldl St.removeObj (s1.dropRecs ts), .ok), w)
+  match s.rematerialise ts with
+  | (s1, .panic) => ((s1, .panic), [])
+  | (s1, _) =>
+    match s1.restoreCopies blocked (s.restoreItems ts) with
+    | (w, false) => ((s1, .panic), w)
+    | (w, true) => (((s.untrackDeletable ts).foldl St.removeObj (s1.dropRecs ts), .ok), w)
 
 /-! ## `copy` and `move` (single file source, file destination, from the root) -/
 
@@ -548,7 +575,7 @@ inductive Cmd where
   | track (ps : List Path) (o : TrackOpts)
   | carryIn (ps : List Path) (tob : Option Tob) (force : Bool)
   | recheck (ps : List Path) (m : Option Method) (force : Bool)
-  | remove (ps : List Path) (allVersions force : Bool)
+  | remove (ps : List Path) (sel : RemoveSel) (force : Bool)
   | untrack (ps : List Path)
   | untrackRestore (ps : List Path) (blocked : List (Path × Addr))
   | copy (src dst : Path) (o : CopyOpts)
